@@ -1,3 +1,4 @@
+import Deltio.Lemmas.SysInv
 import Deltio.Lemmas.SysFrame
 import Deltio.Props.C05
 import Deltio.Props.C02
@@ -161,5 +162,17 @@ example : pushAccepts 204 = true ∧ pushAccepts 203 = false ∧ pushAccepts 500
 example :
     let s := (SubState.init 10000000).exec [.post [⟨7, [], [], 0⟩], .pull 1000 0]
     ((s.turn (.modify [(1, none)])).1.backlog.map (·.id) = [7]) := by decide
+
+
+/-- Over all histories: the push registry is exactly the live subscriptions that have a push
+    configuration, with the endpoint they were created with — so a push round dispatches for every
+    push subscription, for no other, and for none that was deleted. -/
+theorem C14_registry (ops : List SysOp) :
+    (Sys.init.execOps ops).registry =
+      (Sys.init.execOps ops).subs.filterMap (fun e => e.push.map (fun c => (e.name, c))) := by
+  have h := SysInv_all ops
+  have := h.registry
+  simp only [registryOf, Sys.ssh, List.filterMap_map] at this
+  exact this
 
 end Deltio
